@@ -176,6 +176,16 @@ def required_labels(tier):
     return ['sequence', 'class-QR', 'class-M1', 'class-M2', 'class-M3', 'class-M4']
 
 
+def _fuzz(tier):
+    """Coverage-guided phase (atheris), thorough tier (or VERIF_FUZZ_RUNS=<n> in any tier)."""
+    import os
+    runs = int(os.environ.get('VERIF_FUZZ_RUNS', '0' if tier == 'quick' else '320000'))
+    if not runs:
+        return []
+    from .. import fuzz
+    return [fuzz.fuzz_phase(__name__, runs)]
+
+
 def phases(tier, seed):
     n = 9600 if tier == 'quick' else 400000
     return [
@@ -184,4 +194,4 @@ def phases(tier, seed):
         Enum('sequences', lambda: sequence_cases(tier), exhaustive=False,
              note='every symbol of Structured Append sequences (lengths 2..99 / ..599 x 3 modes x 6 option sets); cells are counted as SA-...'),
         Search('generated', gens.make_cases(big=0.05), n),
-    ]
+    ] + _fuzz(tier)
